@@ -1114,7 +1114,17 @@ impl Planner {
         let node_list_op = Box::new(NodeListOperator::new(matching_nodes, 2048));
         let columns = vec![scan_variable];
 
-        Ok(Some((node_list_op, columns)))
+        // The index only answers the equality conjuncts: the other conjuncts of the
+        // predicate (ranges, OR groups, comparisons between properties) still have to
+        // hold, so the whole predicate is evaluated on the candidates.
+        let variable_columns: HashMap<String, usize> =
+            columns.iter().cloned().map(|name| (name, 0)).collect();
+        let filter_expr = self.convert_expression(&filter.predicate)?;
+        let predicate =
+            ExpressionPredicate::new(filter_expr, variable_columns, Arc::clone(&self.store));
+        let operator = Box::new(FilterOperator::new(node_list_op, Box::new(predicate)));
+
+        Ok(Some((operator, columns)))
     }
 
     /// Extracts equality conditions (property = literal) from a predicate.
